@@ -637,6 +637,54 @@ Qed.
 
 End Proofs.
 
+(** * What the encoder puts on the wire *)
+
+(** The payload bytes of a value (what the caller supplied as data). *)
+Definition payload_is_bytes (v : value) : Prop :=
+  match v with
+  | VBytes b => is_bytes b
+  | VErr (Some (_, m)) => is_bytes m
+  | _ => True
+  end.
+
+Lemma enc_value_is_bytes k v : payload_is_bytes v -> is_bytes (enc_value k v).
+Proof.
+  intros H. destruct k, v as [n|z|b|[[c m]|]]; cbn [enc_value payload_is_bytes] in *;
+    try (apply Forall_nil); try apply le64_is_bytes;
+    try (unfold enc_bytes; apply is_bytes_app; split; [apply le64_is_bytes|assumption]).
+  destruct (c =? 0)%Z; [apply le64_is_bytes|].
+  apply is_bytes_app. split; [apply le64_is_bytes|].
+  unfold enc_bytes. apply is_bytes_app. split; [apply le64_is_bytes|assumption].
+Qed.
+
+Theorem enc_schema_is_bytes sch : forall vs,
+  Forall payload_is_bytes vs -> is_bytes (enc_schema sch vs).
+Proof.
+  induction sch as [|k sch IH]; intros vs H; [apply Forall_nil|].
+  destruct vs as [|v vs]; [apply Forall_nil|].
+  inversion H; subst. cbn [enc_schema]. apply is_bytes_app. split.
+  - now apply enc_value_is_bytes.
+  - now apply IH.
+Qed.
+
+(** Size on the wire of one well-formed field: fixed part + payload. *)
+Definition wire_size (k : kind) (v : value) : N :=
+  match k, v with
+  | KU64, VU64 _ | KInt, VInt _ => 8
+  | KStr, VBytes b | KBytes, VBytes b => 8 + lenN b
+  | KErr, VErr None => 8
+  | KErr, VErr (Some (_, m)) => 16 + lenN m
+  | _, _ => 0
+  end.
+
+Lemma enc_value_size k v : wf_value k v -> lenN (enc_value k v) = wire_size k v.
+Proof.
+  intros H. destruct k, v as [n|z|b|[[c m]|]]; cbn [wf_value enc_value wire_size] in *;
+    try contradiction; unfold enc_bytes; rewrite ?lenN_app, ?lenN_le64; try reflexivity.
+  destruct H as (_ & Hnz & _). destruct (Z.eqb_spec c 0); [contradiction|].
+  rewrite !lenN_app, !lenN_le64. lia.
+Qed.
+
 (** * handleRead and tunnel.Read *)
 
 Theorem handle_read_safe mrs maxRead avail :
